@@ -79,7 +79,7 @@ def _java(args, env=None, timeout=600, heap="4g", deque=False, serial=False):
 
 _STATS = re.compile(r"(\d+) states generated, (\d+) distinct states found")
 _DEPTH = re.compile(r"The depth of the complete state graph search is (\d+)")
-_COV = re.compile(r"^<(\w+) line \d+, col \d+ to line \d+, col \d+ of module (\w+)>: (\d+):(\d+)", re.M)
+_COV = re.compile(r"^<(\w+) line \d+, col \d+ to line \d+, col \d+ of module (\w+)(?: \([\d ]+\))?>: (\d+):(\d+)", re.M)
 _VIOL_INV = re.compile(r"Error: Invariant (\w+) is violated")
 _VIOL_PROP = re.compile(r"Error: (?:Action|Temporal) propert(?:y|ies) (\w+)? ?(?:is|were) violated")
 _VIOL_ACTPROP = re.compile(r"Error: Action property (\w+) is violated")
@@ -96,6 +96,10 @@ def parse_stats(out: str):
 
 
 def parse_coverage(out: str, module: str | None = None) -> dict:
+    # TLC reprints the statistics periodically on long runs: only the last report counts
+    i = out.rfind("The coverage statistics at")
+    if i >= 0:
+        out = out[i:]
     cov = {}
     for m in _COV.finditer(out):
         name, mod, distinct, total = m.group(1), m.group(2), int(m.group(3)), int(m.group(4))
